@@ -239,3 +239,22 @@ M("c03-version-revert", "C03", "flexstack/security/certificate.py",
   "        if self.certificate.get(\"version\") != 3:\n            return False\n", "", "revert: certificate version unchecked")
 M("c03-tbs-payload-only", "C03", "flexstack/security/verify_service.py",
   "        data = SECURITY_CODER.encode_to_be_signed_data(signed_data[\"tbsData\"])", "        data = SECURITY_CODER.encode_to_be_signed_data({**signed_data[\"tbsData\"], \"headerInfo\": {**signed_data[\"tbsData\"][\"headerInfo\"], \"generationTime\": signed_data[\"tbsData\"][\"headerInfo\"][\"generationTime\"] // 2 * 2}})", "lowest generation-time bit not covered by the verified hash")
+
+# ---------------------------------------------------------------- C05
+M("c05-2s", "C05", "flexstack/security/sign_service.py",
+  "            current_time - self.last_signer_full_certificate_time > 1\n", "            current_time - self.last_signer_full_certificate_time > 2\n", "certificate included every 2 s instead of 1 s")
+M("c05-ignore-request", "C05", "flexstack/security/sign_service.py",
+  "            if own_hashedid3 in request_list:\n                self.cam_handler.requested_own_certificate = True", "            if own_hashedid3 in request_list:\n                pass", "peer requests for the own certificate ignored")
+M("c05-denm-digest", "C05", "flexstack/security/sign_service.py",
+  "        signed_data_dict[\"content\"][1][\"signer\"] = (\"certificate\", [at_item.certificate])", "        signed_data_dict[\"content\"][1][\"signer\"] = (\"digest\", at_item.as_hashedid8())", "DENM signed with digest")
+M("c05-gentime-ms", "C05", "flexstack/security/sign_service.py",
+  "                            \"generationTime\": TimeService.timestamp_its() * 1000,\n                        },\n                    },\n                    \"signer\": (\"digest\", b\"\\x00\\x00\\x00\\x00\\x00\\x00\\x00\\x00\"),\n                    \"signature\": (\n                        \"ecdsaNistP256Signature\",\n                        {\n                            \"rSig\": (\"fill\", None),\n                            \"sSig\": (0xA495991B7852B855).to_bytes(32, byteorder=\"big\"),\n                        },\n                    ),\n                },\n            ),\n        }\n        if len(self.unknown_ats) > 0:",
+  "                            \"generationTime\": TimeService.timestamp_its(),\n                        },\n                    },\n                    \"signer\": (\"digest\", b\"\\x00\\x00\\x00\\x00\\x00\\x00\\x00\\x00\"),\n                    \"signature\": (\n                        \"ecdsaNistP256Signature\",\n                        {\n                            \"rSig\": (\"fill\", None),\n                            \"sSig\": (0xA495991B7852B855).to_bytes(32, byteorder=\"big\"),\n                        },\n                    ),\n                },\n            ),\n        }\n        if len(self.unknown_ats) > 0:",
+  "CAM generationTime in milliseconds")
+M("c05-learn-skip", "C05", "flexstack/security/certificate_library.py",
+  "            if issuer_certificate is not None and temp_certificate.verify(\n                backend\n            ):\n                self.add_authorization_ticket(temp_certificate)\n                return temp_certificate",
+  "            if issuer_certificate is not None and temp_certificate.verify(\n                backend\n            ):\n                return temp_certificate", "tickets seen in messages are not remembered")
+M("c05-cam-genloc", "C05", "flexstack/security/sign_service.py",
+  "        if len(self.unknown_ats) > 0:\n            sigend_data_dict", "        sigend_data_dict[\"content\"][1][\"tbsData\"][\"headerInfo\"][\"generationLocation\"] = {\"latitude\": 0, \"longitude\": 0, \"elevation\": 0}\n        if len(self.unknown_ats) > 0:\n            sigend_data_dict", "CAM carries generationLocation")
+M("c05-no-notify", "C05", "flexstack/security/verify_service.py",
+  "            if not authorization_ticket:\n                if self.sign_service is not None:\n                    self.sign_service.notify_unknown_at(signer[1])", "            if not authorization_ticket:\n                if False:\n                    self.sign_service.notify_unknown_at(signer[1])", "unknown digest does not trigger a certificate request")
